@@ -87,6 +87,15 @@ CHECKS["C01"] = dict(
          "source coroutine (values, worlds at delivery, stop point, final world, panic). The side conditions are evaluated on every generated program (evidence: "
          "theorem_side_conditions). Outside the fragment (yielding init/post, break out of a yielding case = finding F2, range, YieldFrom) the check is differential. Known findings F1/F2 are reported as such.",
     note=C_NOTE, design="§6 C01, §11")
+CHECKS["C11"] = dict(
+    category="proof",
+    technique="Coq proof (partial): on the supported fragment no assertion of the rewriter model can fail, for any fuel (Accept.v); legality of the model's output "
+              "(every generated function literal returns on every path, no stray branch statement) evaluated on every generated program; acceptance check on the real compiler: "
+              "generated supported programs must compile without compiler panic under six import styles and the output must build; behaviour compared too",
+    text="C11_no_assertion_failure_partial, C11_no_assertion_any_fuel_partial (Props_C11.v): push on a frozen/unchecked block, pop of an empty block, pushReturn with a non-return kind, "
+         "returnNormalRequired on a wrong block kind, yield-in-init and post-not-return are unreachable on the fragment. That the output builds is checked, not proved: go build of the real "
+         "output of every generated program (whole supported grammar plus a regression corpus of shapes that used to crash); untagged rejections are violations.",
+    note=C_NOTE, design="§6 C11, §11")
 CHECKS["C02"] = dict(
     category="proof",
     technique="Coq proof (partial): corollaries of the compiler theorem for every consumer that stops after j values (same world at every stop point); "
